@@ -118,7 +118,7 @@ out:
 
 /* ---------------- UDP ---------------- */
 static void udp_session(vh_rng *r, int v6, int count, int density, int kinds) {
-	PSocketAddress *la = p_socket_address_new(v6 ? "::1" : "127.0.0.1", 0), *ra, *sa_local, *la2 = p_socket_address_new(v6 ? "::1" : "127.0.0.1", 0); PSocket *rx, *tx; int i; size_t maxd = v6 ? 65527 : 65507; unsigned char *sb = malloc(maxd + 8), *rb = malloc(maxd + 16);
+	PSocketAddress *la = p_socket_address_new(v6 ? "::1" : "127.0.0.1", 0), *ra, *sa_local, *la2 = p_socket_address_new(v6 ? "::1" : "127.0.0.1", 0); PSocket *rx, *tx; int i; size_t maxd = v6 ? 65527 : 65507; unsigned char *sb = malloc(maxd + 8), *rb = malloc(maxd + 32);      /* the receive buffer may be up to len + 10 <= maxd + 10 bytes plus 8 canary bytes */
 	uint64_t key = vh_next(r);
 	scen = "udp";
 	rx = p_socket_new(v6 ? P_SOCKET_FAMILY_INET6 : P_SOCKET_FAMILY_INET, P_SOCKET_TYPE_DATAGRAM, P_SOCKET_PROTOCOL_UDP, NULL);
